@@ -309,6 +309,32 @@ pub fn alpha_tol(q: usize) -> Vec<Gate> {
     a
 }
 
+/// gadget-heavy alphabet: one letter = one parity-phase gadget exp(i k pi/4 Z..Z) on a subset of >= 2 qubits (phases
+/// 1/4, and 3/4 on the full set), a Hadamard on each qubit, and CNOTs between neighbouring qubits. Short words over it
+/// already give diagrams with several interacting phase gadgets separated by Hadamards (what circuits with <= 4
+/// elementary gates never reach).
+pub fn alpha_pp(q: usize) -> Vec<Gate> {
+    let mut a = vec![];
+    for i in 0..q {
+        a.push(g1(HAD, i));
+    }
+    for m in 1u32..(1 << q) {
+        if m.count_ones() >= 2 {
+            let qs: Vec<usize> = (0..q).filter(|i| (m >> i) & 1 == 1).collect();
+            a.push(gp(ParityPhase, qs.clone(), (1, 4)));
+            if m == (1 << q) - 1 {
+                a.push(gp(ParityPhase, qs, (3, 4)));
+            }
+        }
+    }
+    for i in 0..q.saturating_sub(1) {
+        a.push(Gate::new(CNOT, vec![i, i + 1]));
+        a.push(Gate::new(CNOT, vec![i + 1, i]));
+    }
+    a.push(g1(T, 0));
+    a
+}
+
 pub fn circuit_count(alpha: usize, depth: usize) -> u64 {
     (0..=depth).map(|d| (alpha as u64).pow(d as u32)).sum()
 }
